@@ -314,3 +314,50 @@ Lemma before_F38_refuted :
   (wakeup (ex new) = true /\
    mx (frun the_code new [FWake; FFeed; FWake]) = MBreak1 TerminatedWorkerError).  (* fixed: re-woken, noticed *)
 Proof. vm_compute. repeat split; try reflexivity. left; reflexivity. Qed.
+
+(* ------------------------------------------------------------- the two-lock order *)
+(* the wrapper only ever blocks an event: every invariant of M10c carries over *)
+Lemma gstep_cases : forall cbl c g ev, gstep cbl c g ev = g \/ (exists fev, fst (gstep cbl c g ev) = fstep c (fst g) fev) \/
+  fst (gstep cbl c g ev) = fst g.
+Proof.
+  intros cbl c [st d] ev. destruct ev as [| |fev]; cbn [gstep].
+  - destruct (caller st); auto.
+  - destruct (caller st); auto.
+  - destruct fev; cbn [fst]; try (right; left; eexists; reflexivity).
+    + destruct (mgr_holds_S cbl st); [left; reflexivity | right; left; eexists; reflexivity].
+    + destruct d; [left; reflexivity | right; left; eexists; reflexivity].
+    + destruct (mgr_holds_S cbl st); [left; reflexivity | right; left; eexists; reflexivity].
+Qed.
+
+Lemma FI_grun : forall cbl c evs g, locked c = true -> FI (fst g) -> FI (fst (grun cbl c g evs)).
+Proof.
+  intros cbl c evs. induction evs as [|ev t IH]; intros g Hl H; [exact H|]. cbn [grun fold_left]. apply IH; [exact Hl|].
+  destruct (gstep_cases cbl c g ev) as [E|[[fev E]|E]]; rewrite E; [exact H | apply FI_step; assumption | exact H].
+Qed.
+
+(* the code (cbl = false): the manager never holds shutdown_lock between two of its steps, so a dispatching caller
+   is never kept out of submit by the manager, whatever the manager is doing ... *)
+Lemma caller_never_blocked_by_manager : forall c st d,
+  gstep false c (st, d) (GF FCheck) = (fstep c st FCheck, d) /\ deadlocked false (st, d) = false.
+Proof. intros c st d. unfold deadlocked, mgr_holds_S. cbn. split; [reflexivity | apply andb_false_r || (destruct d; reflexivity)]. Qed.
+
+(* ... and once the caller has left dispatch_one_batch the manager can run the callbacks *)
+Lemma manager_runs_callbacks_after_dispatch : forall cbl c st,
+  gstep cbl c (st, false) (GF FFailAll) = (fstep c st FFailAll, false).
+Proof. reflexivity. Qed.
+
+(* seeded defect C10-14 (cbl = true): the caller dispatches (holds P), a worker dies, the manager decides and flags
+   under S and keeps S for the fail-all loop, which needs P: both threads are blocked for ever, future 0 pending *)
+Definition deadlock_trace : list gevent :=
+  [GDispatchBegin; GF FCheck; GF FRegister; GF FSpawnStart; GF FFeed; GF FWake; GF FFeed;
+   GF (FWorker (Take 0)); GF (FWorker (Die 0)); GF FWake; GF FFlag].
+
+Lemma callbacks_under_lock_deadlock :
+  let g := grun true the_code (finit 2 5 0, false) deadlock_trace in
+  deadlocked true g = true /\ futs (ex (fst g)) 0 = FRunning /\
+  gstep true the_code g (GF FCheck) = g /\ gstep true the_code g (GF FFailAll) = g /\
+  (* the same schedule with the real lock order: nobody is blocked, the caller's submit raises, the futures get failed *)
+  (let h := grun false the_code (finit 2 5 0, false) deadlock_trace in
+   deadlocked false h = false /\
+   futs (ex (fst (grun false the_code h [GF FCheck; GDispatchEnd; GF FFailAll]))) 0 = FExc (PoolError TerminatedWorkerError)).
+Proof. vm_compute. repeat split; reflexivity. Qed.
